@@ -550,38 +550,33 @@ Definition opt_eqb {A} (f : A -> A -> bool) (a b : option A) : bool :=
   | _, _ => false
   end.
 
-Fixpoint list_eqb {A} (f : A -> A -> bool) (a b : list A) : bool :=
-  match a, b with
-  | [], [] => true
-  | x :: r, y :: s => f x y && list_eqb f r s
-  | _, _ => false
-  end.
+Definition list_eqb {A} (f : A -> A -> bool) : list A -> list A -> bool :=
+  fix go (a b : list A) {struct a} : bool :=
+    match a, b with
+    | [], [] => true
+    | x :: r, y :: s => f x y && go r s
+    | _, _ => false
+    end.
+
+(* every entry of l has an equal entry under the same key in m *)
+Definition sub_map {A} (f : A -> A -> bool) (l m : list (string * A)) : bool :=
+  forallb (fun kv : string * A => let (k, x) := kv in
+             match lookup k m with Some y => f x y | None => false end) l.
 
 Fixpoint req (a b : rvalue) {struct a} : bool :=
-  let fix reql (l m : list rvalue) {struct l} : bool :=
-      match l, m with
-      | [], [] => true
-      | x :: r, y :: s => req x y && reql r s
-      | _, _ => false
-      end in
-  let fix sub (l : list (string * rvalue)) (m : list (string * rvalue)) {struct l} : bool :=
-      match l with
-      | [] => true
-      | (k, x) :: r => match lookup k m with Some y => req x y | None => false end && sub r m
-      end in
   match a, b with
   | RNil, RNil => true
   | RNone t, RNone u => (t =? u)%Z
   | RInt t z, RInt u y => (t =? u)%Z && (z =? y)%Z
   | RFloat t x, RFloat u y => (t =? u)%Z && (x =? y)%N
   | RStr t x, RStr u y => (t =? u)%Z && String.eqb x y
-  | RArr t l, RArr u m => (t =? u)%Z && reql l m
-  | RDict t l, RDict u m => (t =? u)%Z && (length l =? length m)%nat && sub l m
+  | RArr t l, RArr u m => (t =? u)%Z && list_eqb req l m
+  | RDict t l, RDict u m => (t =? u)%Z && (length l =? length m)%nat && sub_map req l m
   | RFunc t n p e, RFunc u n' p' e' =>
     (t =? u)%Z && String.eqb n n' && opt_eqb (list_eqb String.eqb) p p' && String.eqb e e'
   | RComputed t e None, RComputed u e' None => (t =? u)%Z && String.eqb e e'
   | RComputed t e (Some l), RComputed u e' (Some m) =>
-    (t =? u)%Z && String.eqb e e' && (length l =? length m)%nat && sub l m
+    (t =? u)%Z && String.eqb e e' && (length l =? length m)%nat && sub_map req l m
   | RNative t n, RNative u n' => (t =? u)%Z && String.eqb n n'
   | RNObj t n, RNObj u n' => (t =? u)%Z && String.eqb n n'
   | _, _ => false
@@ -682,19 +677,41 @@ Definition r_truthy (T : json_tags) (r : rvalue) : outcome bool :=
     end
   end.
 
+(* sequencing helpers (the function is a parameter outside the fix, as in List.map) *)
+Definition all_unit {A} (f : A -> outcome unit) : list A -> outcome unit :=
+  fix go (l : list A) : outcome unit :=
+    match l with
+    | [] => Done tt
+    | x :: s => obind (f x) (fun _ => go s)
+    end.
+
+Inductive jres := JOk | JErr.
+
+Definition all_json {A} (f : A -> outcome jres) : list A -> outcome jres :=
+  fix go (l : list A) : outcome jres :=
+    match l with
+    | [] => Done JOk
+    | x :: s => obind (f x) (fun o => match o with JErr => Done JErr | JOk => go s end)
+    end.
+
+Definition all_eq2 {A} (f : A -> A -> outcome bool) : list A -> list A -> outcome bool :=
+  fix go (l m : list A) {struct l} : outcome bool :=
+    match l, m with
+    | [], _ => Done true
+    | x :: r, y :: s => obind (f x y) (fun e => if e then go r s else Done false)
+    | _ :: _, [] => Done false
+    end.
+
+Definition all_bool {A} (f : A -> outcome bool) : list A -> outcome bool :=
+  fix go (l : list A) : outcome bool :=
+    match l with
+    | [] => Done true
+    | x :: r => obind (f x) (fun e => if e then go r else Done false)
+    end.
+
 (* toStringRaw / toReprRaw: nil prints "NIL"; every typed branch asserts the payload type;
    unknown tags print "a value".  The text itself is not modelled. *)
 Fixpoint r_to_string (T : json_tags) (r : rvalue) : outcome unit :=
-  let fix all (l : list rvalue) : outcome unit :=
-      match l with
-      | [] => Done tt
-      | x :: s => obind (r_to_string T x) (fun _ => all s)
-      end in
-  let fix alle (l : list (string * rvalue)) : outcome unit :=
-      match l with
-      | [] => Done tt
-      | (_, x) :: s => obind (r_to_string T x) (fun _ => alle s)
-      end in
   match tag_of r with
   | None => Done tt
   | Some t =>
@@ -703,9 +720,13 @@ Fixpoint r_to_string (T : json_tags) (r : rvalue) : outcome unit :=
     | Some KFloat => match r with RFloat _ _ => Done tt | _ => Trap end
     | Some KStr => match r with RStr _ _ => Done tt | _ => Trap end
     | Some KNull => Done tt
-    | Some KArray => match r with RArr _ l => all l | _ => Trap end
+    | Some KArray => match r with RArr _ l => all_unit (r_to_string T) l | _ => Trap end
     | Some KComputed => match r with RComputed _ _ _ => Done tt | _ => Trap end
-    | Some KDict => match r with RDict _ l => alle l | _ => Trap end
+    | Some KDict =>
+      match r with
+      | RDict _ l => all_unit (fun kv : string * rvalue => let (_, x) := kv in r_to_string T x) l
+      | _ => Trap
+      end
     | Some KFunc => match r with RFunc _ _ _ _ => Done tt | _ => Trap end
     | Some KNative => match r with RNative _ _ => Done tt | _ => Trap end
     | Some KNObj => match r with RNObj _ _ => Done tt | _ => Trap end
@@ -715,19 +736,7 @@ Fixpoint r_to_string (T : json_tags) (r : rvalue) : outcome unit :=
 
 (* ToJSONRaw on a raw tree: nil => error; unknown tag => (nil, nil), i.e. no error and no text;
    int/float/string are handed to json.Marshal whatever the payload; the other branches assert *)
-Inductive jres := JOk | JErr.
-
 Fixpoint r_to_json (T : json_tags) (r : rvalue) : outcome jres :=
-  let fix all (l : list rvalue) : outcome jres :=
-      match l with
-      | [] => Done JOk
-      | x :: s => obind (r_to_json T x) (fun o => match o with JErr => Done JErr | JOk => all s end)
-      end in
-  let fix alle (l : list (string * rvalue)) : outcome jres :=
-      match l with
-      | [] => Done JOk
-      | (_, x) :: s => obind (r_to_json T x) (fun o => match o with JErr => Done JErr | JOk => alle s end)
-      end in
   match tag_of r with
   | None => Done JErr
   | Some t =>
@@ -735,9 +744,17 @@ Fixpoint r_to_json (T : json_tags) (r : rvalue) : outcome jres :=
     | Some KInt | Some KStr | Some KNull => Done JOk
     | Some KFloat => Done (match r with RFloat _ b => if f_finite b then JOk else JErr | _ => JOk end)
     | Some KComputed =>
-      match r with RComputed _ _ None => Done JOk | RComputed _ _ (Some l) => alle l | _ => Trap end
-    | Some KArray => match r with RArr _ l => all l | _ => Trap end
-    | Some KDict => match r with RDict _ l => alle l | _ => Trap end
+      match r with
+      | RComputed _ _ None => Done JOk
+      | RComputed _ _ (Some l) => all_json (fun kv : string * rvalue => let (_, x) := kv in r_to_json T x) l
+      | _ => Trap
+      end
+    | Some KArray => match r with RArr _ l => all_json (r_to_json T) l | _ => Trap end
+    | Some KDict =>
+      match r with
+      | RDict _ l => all_json (fun kv : string * rvalue => let (_, x) := kv in r_to_json T x) l
+      | _ => Trap
+      end
     | Some KFunc => match r with RFunc _ _ _ _ => Done JOk | _ => Trap end
     | Some KNative => match r with RNative _ _ => Done JOk | _ => Trap end
     | Some KNObj => match r with RNObj _ _ => Done JOk | _ => Trap end
@@ -746,21 +763,9 @@ Fixpoint r_to_json (T : json_tags) (r : rvalue) : outcome jres :=
   end.
 
 (* ValueEqual(a, b, _): nil-tolerant; same tag => array/dict/computed/native assert BOTH
-   payloads, the default branch compares interface values (comparable dynamic types only) *)
+   payloads, the default branch compares interface values (comparable dynamic types only).
+   Dict: Range over a, MustLoad from b (nil when the key is missing). *)
 Fixpoint r_equal (T : json_tags) (a b : rvalue) {struct a} : outcome bool :=
-  let fix alll (l m : list rvalue) {struct l} : outcome bool :=
-      match l, m with
-      | [], _ => Done true
-      | x :: r, y :: s => obind (r_equal T x y) (fun e => if e then alll r s else Done false)
-      | _ :: _, [] => Done false
-      end in
-  let fix sub (l : list (string * rvalue)) (m : list (string * rvalue)) {struct l} : outcome bool :=
-      match l with
-      | [] => Done true
-      | (k, x) :: r =>
-        obind (r_equal T x (match lookup k m with Some y => y | None => RNil end))
-              (fun e => if e then sub r m else Done false)
-      end in
   match tag_of a, tag_of b with
   | None, None => Done true
   | None, _ | _, None => Done false
@@ -770,12 +775,16 @@ Fixpoint r_equal (T : json_tags) (a b : rvalue) {struct a} : outcome bool :=
       match dispatch T t with
       | Some KArray =>
         match a, b with
-        | RArr _ l, RArr _ m => if (length l =? length m)%nat then alll l m else Done false
+        | RArr _ l, RArr _ m => if (length l =? length m)%nat then all_eq2 (r_equal T) l m else Done false
         | _, _ => Trap
         end
       | Some KDict =>
         match a, b with
-        | RDict _ l, RDict _ m => if (length l =? length m)%nat then sub l m else Done false
+        | RDict _ l, RDict _ m =>
+          if (length l =? length m)%nat
+          then all_bool (fun kv : string * rvalue => let (k, x) := kv in
+                           r_equal T x (match lookup k m with Some y => y | None => RNil end)) l
+          else Done false
         | _, _ => Trap
         end
       | Some KComputed =>
@@ -829,40 +838,47 @@ Definition pmap (h : heap) (p : nat) : list (string * nat) :=
 
 (* ToJSONRaw with the cycle set threaded through (insert on entry, delete on exit).  A dangling
    wrapper id stands for a nil pointer (error "nil pointer").  Returns the result and the set
-   as the callee leaves it. *)
+   as the callee leaves it.  `g_items` / `g_entries` are the loops over ArrayData.List and
+   ValueMap.Range; `rec` is ToJSONRaw on one element. *)
+Definition g_items (rec : list nat -> nat -> gres * list nat)
+  : list nat -> list nat -> lres (list json) * list nat :=
+  fix go (l : list nat) (save : list nat) : lres (list json) * list nat :=
+    match l with
+    | [] => (LOk [], save)
+    | x :: r =>
+      match rec save x with
+      | (GOk j, save1) =>
+        match go r save1 with
+        | (LOk js, save2) => (LOk (j :: js), save2)
+        | other => other
+        end
+      | (GErr, save1) => (LErr, save1)
+      | (GFuel, save1) => (LFuel, save1)
+      end
+    end.
+
+Definition g_entries (rec : list nat -> nat -> gres * list nat)
+  : list (string * nat) -> list nat -> lres (list (string * json)) * list nat :=
+  fix go (l : list (string * nat)) (save : list nat) : lres (list (string * json)) * list nat :=
+    match l with
+    | [] => (LOk [], save)
+    | (k, x) :: r =>
+      match rec save x with
+      | (GOk j, save1) =>
+        match go r save1 with
+        | (LOk js, save2) => (LOk ((k, j) :: js), save2)
+        | other => other
+        end
+      | (GErr, save1) => (LErr, save1)
+      | (GFuel, save1) => (LFuel, save1)
+      end
+    end.
+
 Fixpoint to_json_graph (T : json_tags) (h : heap) (fuel : nat) (save : list nat) (w : nat)
   : gres * list nat :=
   match fuel with
   | O => (GFuel, save)
   | S f =>
-    let fix items (l : list nat) (save : list nat) : lres (list json) * list nat :=
-        match l with
-        | [] => (LOk [], save)
-        | x :: r =>
-          match to_json_graph T h f save x with
-          | (GOk j, save1) =>
-            match items r save1 with
-            | (LOk js, save2) => (LOk (j :: js), save2)
-            | other => other
-            end
-          | (GErr, save1) => (LErr, save1)
-          | (GFuel, save1) => (LFuel, save1)
-          end
-        end in
-    let fix entries (l : list (string * nat)) (save : list nat) : lres (list (string * json)) * list nat :=
-        match l with
-        | [] => (LOk [], save)
-        | (k, x) :: r =>
-          match to_json_graph T h f save x with
-          | (GOk j, save1) =>
-            match entries r save1 with
-            | (LOk js, save2) => (LOk ((k, j) :: js), save2)
-            | other => other
-            end
-          | (GErr, save1) => (LErr, save1)
-          | (GFuel, save1) => (LFuel, save1)
-          end
-        end in
     match nth_error (wrappers h) w with
     | None => (GErr, save)
     | Some c =>
@@ -883,7 +899,7 @@ Fixpoint to_json_graph (T : json_tags) (h : heap) (fuel : nat) (save : list nat)
       | WComputed e (Some p) =>
         if mem_nat w save then (GErr, save)
         else
-          match entries (pmap h p) (w :: save) with
+          match g_entries (to_json_graph T h f) (pmap h p) (w :: save) with
           | (LOk js, save1) =>
             (GOk (JObj [(ek_t T, JInt (e_computed T));
                         (ek_v T, JObj [(ek_cexpr T, JStr e); (ek_cattrs T, JObj js)])]), del_nat w save1)
@@ -893,7 +909,7 @@ Fixpoint to_json_graph (T : json_tags) (h : heap) (fuel : nat) (save : list nat)
       | WArr p =>
         if mem_nat w save then (GErr, save)
         else
-          match items (plist h p) (w :: save) with
+          match g_items (to_json_graph T h f) (plist h p) (w :: save) with
           | (LOk js, save1) =>
             (GOk (JObj [(ek_t T, JInt (e_array T)); (ek_v T, JObj [(ek_list T, JArr js)])]), del_nat w save1)
           | (LErr, save1) => (GErr, save1)              (* early return: w stays in the set *)
@@ -902,7 +918,7 @@ Fixpoint to_json_graph (T : json_tags) (h : heap) (fuel : nat) (save : list nat)
       | WDict p =>
         if mem_nat w save then (GErr, save)
         else
-          match entries (pmap h p) (w :: save) with
+          match g_entries (to_json_graph T h f) (pmap h p) (w :: save) with
           | (LOk js, save1) =>
             (GOk (JObj [(ek_t T, JInt (e_dict T)); (ek_v T, JObj [(ek_dict T, JObj js)])]), del_nat w save1)
           | (LErr, save1) => (GErr, del_nat w save1)
